@@ -28,6 +28,15 @@ def check(repo, col, tier):
     from . import c10 as _c10
     col.rule("R-C14-tables", "init_states evaluates the steady states at the table values of each compartment's own parameters", 2)
     _c10.table_values(repo, col, "R-C14-tables")
+    # a steady state is a number at EVERY voltage: the rate helpers are finite at their removable singularities (shared with C03)
+    from . import c03 as _c03, kin as _kin
+    col.rule("R-C14-singular", "removable 0/0 singularities of the rate helpers are guarded and filled continuously", 2)
+    _v = col.renamed({"R-C03-singular": "R-C14-singular"})
+    _h = {}
+    for _f in _kin.CHANNEL_FILES:
+        for _fi in _kin.module_helpers(repo, _f):
+            _h[_fi.name] = _c03._analyse_helper(repo, _v, _fi)
+    _c03._call_site_witnesses(repo, _v, _h)
     col.rule("R-C14-fixpoint", "update_states(init_state(v)) == init_state(v) as a rational identity", 8)
     col.rule("R-C14-cover", "init_state returns every state that update_states evolves", 6)
     col.rule("R-C14-rows", "init_states gathers and writes with the channel's own presence rows", 5)
